@@ -494,6 +494,7 @@ def run(tier, seed):
         failing += methods_stream(ck)
         failing += raw_stream(ck, tmp, infos)
         failing += reject_stream(ck, tmp)
+        failing += reuse_stream(ck, tmp)
         ck.cov["rule"] = (
             "streams: eag (cmd_encrypt.main encrypt-and-generate in-process with os.urandom replaced by a recorded stream: plaintext sizes "
             "0/1/15/16/17/4096/65537 x key ids at CBOR width boundaries x the 5 digest algorithms), eag-cli (real CLI subprocess, real entropy), "
@@ -720,6 +721,82 @@ def reject_stream(ck, tmp):
         fails.append({"input": {"op": "cli encrypt-and-generate", "hash_alg": "md5"}, "observed": f"exit {rc}, files {sorted(files)}", "expected": "non-zero exit, no file"})
     return fails
 
+
+
+def reuse_stream(ck, tmp):
+    """Histories: successive runs INTO THE SAME output directory (what a rebuild does) — long artifacts first, shorter ones
+    afterwards, both subcommands, in-process and through the CLI.  After each run the directory is judged on its own:
+    every artifact is exactly what THIS run describes (no bytes of an earlier run survive)."""
+    fails = []
+    rng = ck.rng
+    key = bytes(rng.randrange(256) for _ in range(32))
+    seqs = [[(5000, 0x40000123, "sha-512"), (16, 7, "sha-256"), (17, 2 ** 32 - 1, "shake256"), (0, 0, "sha-384"), (4096, 24, "shake128")]]
+    if ck.deep:
+        seqs.append([(rng.choice(SIZES), rng.choice(KIDS), rng.choice(ALGS)) for _ in range(12)])
+    for via in ("lib", "cli"):
+        for si, seq in enumerate(seqs):
+            d = fresh_dir(tmp, f"reuse_{via}_{si}")
+            kd = write_key(d, key)
+            out = fresh_dir(d, "out")
+            fw = os.path.join(d, "fw.bin")
+            for step, (n, kid, halg) in enumerate(seq):
+                pt = mkpt(n, 7000 + step)
+                with open(fw, "wb") as fh:
+                    fh.write(pt)
+                rc = 0
+                try:
+                    if via == "lib":
+                        try:
+                            _cmd().main(encrypt_subcommand="encrypt-and-generate", encrypt_script=enc_script(), firmware=fw, key_name=KEY_NAME, key_id=kid,
+                                        context=kd, hash_alg=halg, kw_alg="direct", kms_script=kms_script(), output_dir=out)
+                        finally:
+                            _clean_modules()
+                    else:
+                        rc = cli(["encrypt", "encrypt-and-generate", "--firmware", "fw.bin", "--key-name", KEY_NAME, "--key-id", hex(kid), "--context", kd,
+                                  "--output-dir", out, "--hash-alg", halg, "--kms-script", kms_script(), "--encrypt-script", enc_script()], d)
+                    why = f"CLI exit status {rc}" if rc != 0 else oracle_eag(read_dir(out), key, pt, kid, halg)
+                except Exception as e:  # noqa: BLE001
+                    why = f"raised {type(e).__name__}: {e}"
+                ck.count("reuse", (via, si, step), nontrivial=step > 0, sample={"via": via, "step": step, "plaintext_len": n, "key_id": kid, "hash_alg": halg,
+                                                                                     "history": "same --output-dir as the previous steps"})
+                if why:
+                    r = rec_eag(f"{via} encrypt-and-generate, step {step} of successive runs into one output directory", key, n, 7000 + step, kid, halg, why)
+                    r["input"]["history"] = [{"plaintext_len": a, "plaintext_seed": 7000 + i, "key_id": b, "hash_alg": c} for i, (a, b, c) in enumerate(seq[:step + 1])]
+                    fails.append(r)
+                    break
+            # generate-info into a directory that holds longer artifacts of the same names
+            if not fails:
+                blob = bytes(rng.randrange(256) for _ in range(12 + 16 + 5))
+                cek = bytes(rng.randrange(256) for _ in range(40))
+                for nm in (F_DIGEST, F_SIZE):
+                    try:
+                        os.remove(os.path.join(out, nm))
+                    except OSError:
+                        pass
+                fb, fk = os.path.join(d, "blob.bin"), os.path.join(d, "cek.bin")
+                with open(fb, "wb") as fh:
+                    fh.write(blob)
+                with open(fk, "wb") as fh:
+                    fh.write(cek)
+                try:
+                    if via == "lib":
+                        try:
+                            _cmd().main(encrypt_subcommand="generate-info", encrypt_script=enc_script(), encrypted_firmware=fb, encrypted_key=fk, key_id=5,
+                                        kw_alg="aes-kw-256", output_dir=out)
+                        finally:
+                            _clean_modules()
+                        rc = 0
+                    else:
+                        rc = cli(["encrypt", "generate-info", "--encrypted-firmware", "blob.bin", "--encrypted-key", "cek.bin", "--key-id", "5", "--kw-alg", "aes-kw-256",
+                                  "--output-dir", out, "--encrypt-script", enc_script()], d)
+                    why = f"CLI exit status {rc}" if rc != 0 else oracle_geninfo(read_dir(out), blob, cek, 5, "aes-kw-256")
+                except Exception as e:  # noqa: BLE001
+                    why = f"raised {type(e).__name__}: {e}"
+                ck.count("reuse", (via, si, "geninfo"), nontrivial=True, sample={"via": via, "op": "generate-info after encrypt-and-generate in one directory"})
+                if why:
+                    fails.append(rec_gen(f"{via} generate-info into the output directory of earlier, longer runs", blob, cek, 5, "aes-kw-256", why))
+            shutil.rmtree(d, ignore_errors=True)
+    return fails
 
 def search(ck, tmp):
     """Step 6: an obligation broke — sweep the implementation with the oracle over the bounded space."""
